@@ -5,7 +5,7 @@ from typing import TYPE_CHECKING, List, Optional, Sequence, Tuple, Union, cast
 import rdflib
 
 from pyshacl.consts import SH_object, SH_predicate, SH_subject
-from pyshacl.errors import ReportableRuntimeError
+from pyshacl.errors import ReportableRuntimeError, RuleLoadError
 from pyshacl.helper.expression_helper import nodes_from_node_expression
 from pyshacl.rules.shacl_rule import SHACLRule
 
@@ -33,23 +33,23 @@ class TripleRule(SHACLRule):
         super(TripleRule, self).__init__(executor, shape, rule_node, **kwargs)
         my_subject_nodes = set(self.shape.sg.objects(self.node, SH_subject))
         if len(my_subject_nodes) < 1:
-            raise RuntimeError("No sh:subject")
+            raise RuleLoadError("A sh:TripleRule must have exactly one sh:subject (found none).", "https://www.w3.org/TR/shacl-af/#TripleRule")
         elif len(my_subject_nodes) > 1:
-            raise RuntimeError("Too many sh:subject")
+            raise RuleLoadError("A sh:TripleRule must have exactly one sh:subject (found several).", "https://www.w3.org/TR/shacl-af/#TripleRule")
         self.s = next(iter(my_subject_nodes))
 
         my_predicate_nodes = set(self.shape.sg.objects(self.node, SH_predicate))
         if len(my_predicate_nodes) < 1:
-            raise RuntimeError("No sh:predicate")
+            raise RuleLoadError("A sh:TripleRule must have exactly one sh:predicate (found none).", "https://www.w3.org/TR/shacl-af/#TripleRule")
         elif len(my_predicate_nodes) > 1:
-            raise RuntimeError("Too many sh:predicate")
+            raise RuleLoadError("A sh:TripleRule must have exactly one sh:predicate (found several).", "https://www.w3.org/TR/shacl-af/#TripleRule")
         self.p = next(iter(my_predicate_nodes))
 
         my_object_nodes = set(self.shape.sg.objects(self.node, SH_object))
         if len(my_object_nodes) < 1:
-            raise RuntimeError("No sh:object")
+            raise RuleLoadError("A sh:TripleRule must have exactly one sh:object (found none).", "https://www.w3.org/TR/shacl-af/#TripleRule")
         elif len(my_object_nodes) > 1:
-            raise RuntimeError("Too many sh:object")
+            raise RuleLoadError("A sh:TripleRule must have exactly one sh:object (found several).", "https://www.w3.org/TR/shacl-af/#TripleRule")
         self.o = next(iter(my_object_nodes))
 
     def apply(
